@@ -367,10 +367,11 @@ def impl (o : Obj α) : Impl α := ⟨o.eval, o.adj⟩
 def sameShape (a b : Obj α) : Bool :=
   a.md.inShape = b.md.inShape && a.md.outShape = b.md.outShape
 
-/-- dtype transfer of `LinearOperator.adj`: it checks the dtype of its argument against the declared
-    output dtype (`MatrixOperator` defines `_adj` and inherits the check, fixes/opalg-12) -/
+/-- dtype transfer of `LinearOperator.adj` (checks the dtype of its argument against the declared
+    output dtype); `MatrixOperator.adj` is overridden and does not check the dtype -/
 def adjCallDt (o : Obj α) : DtFn := fun dy =>
-  if o.md.outDt ≠ dy then .error .dtype
+  if o.md.cls = .matrix then o.adjDt dy
+  else if o.md.outDt ≠ dy then .error .dtype
   else o.adjDt dy
 
 /-- `Operator.__call__` on an array of shape `xsh`: evaluated only when the shape is exactly the
@@ -379,9 +380,10 @@ def callArr (o : Obj α) (xsh : Shape) (x : Vc α) : Except Err (Vc α) :=
   if o.md.inShape = xsh then .ok (o.eval x)
   else .error (if o.md.cls = .matrix then .type else .shape)
 
-/-- `LinearOperator.adj` on an array of shape `ysh` and dtype `ydt`: dtype check, then shape check -/
+/-- `LinearOperator.adj` on an array of shape `ysh` and dtype `ydt`: dtype check, then shape check;
+    `MatrixOperator.adj` checks the shape only (fixes/opalg-12) -/
 def adjArr (o : Obj α) (ysh : Shape) (ydt : DT) (y : Vc α) : Except Err (Vc α) :=
-  if o.md.outDt ≠ ydt then .error .dtype
+  if o.md.cls ≠ .matrix ∧ o.md.outDt ≠ ydt then .error .dtype
   else if o.md.outShape ≠ ysh then .error .shape
   else .ok (o.adj y)
 
